@@ -182,13 +182,26 @@ def run_shard(ctx):
                             check(ctx, cls, [first] + more, how)
                         except Abandon:
                             pass
+        # many tabs / line breaks in one piece (a row of tab-separated values, a multi-line text)
+        for n in (7, 8, 9, 10, 12, 17, 40):
+            for unit in ("\t", "\n", "\t\n", "x\t", "y\n", " \t", "\n "):
+                for more in ([], ["z"], ["\t"]):
+                    k += 1
+                    if k % ctx.nshards != ctx.shard:
+                        continue
+                    for cls, how in (("Paragraph", "append"), ("Header", "plain"), ("Span", "mixed")):
+                        try:
+                            check(ctx, cls, [unit * n] + more, how)
+                        except Abandon:
+                            pass
         ctx.count("long-run-cases", k // ctx.nshards)
 
     ctx.engine.add("enumeration")
     ctx.rounds_loop(enum)
     ctx.rounds_loop(long_runs)
 
-    blanks = st.sampled_from([2, 3, 9, 10, 11, 12, 19, 20, 21, 99, 100, 101, 130]).map(lambda n: " " * n)
+    blanks = st.one_of(st.sampled_from([2, 3, 9, 10, 11, 12, 19, 20, 21, 99, 100, 101, 130]).map(lambda n: " " * n),
+                       st.tuples(st.sampled_from(["\t", "\n", "\t\n", "a\t", " \n"]), st.integers(5, 14)).map(lambda p: p[0] * p[1]))
     piece = st.one_of(st.lists(st.sampled_from(RICH), max_size=12).map("".join), st.lists(st.sampled_from(RICH), max_size=12).map("".join),
                       st.tuples(st.sampled_from(["", "a", "\t"]), blanks, st.sampled_from(["", "b", "\n"])).map("".join))
     pieces = st.lists(piece, min_size=1, max_size=6)
